@@ -179,11 +179,12 @@ def run(ck, w):
             ck.ok(o, "present(BlockDir::blocks).difference(referenced_blocks(..))", sites=[d.site()])
     o = ck.ob("C05.4b", "referenced_blocks is computed over keep = list_band_ids() minus the bands being deleted")
     cr = rules.creators_of(db, REFD)
-    retains = [e for e in db.events if e.bb in db.live and e.name == "std::vec::Vec::<T, A>::retain"]
+    # keep = listed.retain(|b| !delete.contains(b))   or   listed.into_iter().filter(|b| !delete.contains(b)).collect()
+    retains = [e for e in db.events if e.bb in db.live and (e.name == "std::vec::Vec::<T, A>::retain" or re.search(r"Iterator>?::filter$", e.name))]
     if not cr or not retains:
         ck.fail(o, db.name, "keep set construction changed", "no referenced_blocks call or no retain over the band list")
     else:
-        orig = flow.origins_x(lib, db, cr[0].args[1])
+        orig = flow.origins_x(lib, db, cr[0].args[1], through_calls=[r"Iterator>?::(filter|collect|copied|cloned)$", r"Itertools::collect_vec$", r"IntoIterator>?::into_iter$"])
         if "archive::Archive::list_band_ids" not in flow.origin_calls(orig) or any(x[0] == "param" and x[1] == "delete_band_ids" for x in orig):
             ck.fail(o, db.name, "referenced_blocks not over the listed bands",
                     "band list derives from %s" % flow.origin_summary(orig), cr[0].site())
@@ -208,7 +209,7 @@ def run(ck, w):
                                 okc = True
             # retain must happen before referenced_blocks is called, on the same vector
             before = db.must_pass_nodes({retains[0].bb}, cr[0].bb)
-            rorig = flow.origins_x(lib, db, retains[0].args[0])
+            rorig = flow.origins_x(lib, db, retains[0].args[0], through_calls=[r"IntoIterator>?::into_iter$", r"Iterator>?::(copied|cloned)$"])
             same = "archive::Archive::list_band_ids" in flow.origin_calls(rorig)
             if okc and before and same:
                 ck.ok(o, "keep.retain(|b| !delete_band_ids.contains(b)) precedes referenced_blocks(keep)", sites=[retains[0].site()])
@@ -216,6 +217,20 @@ def run(ck, w):
                 ck.fail(o, db.name, "retain filter changed",
                         "retain closure is not `!delete_band_ids.contains(b)` on the listed bands before referenced_blocks "
                         "(closure ok=%s, before=%s, same vector=%s)" % (okc, before, same), retains[0].site())
+
+    o = ck.ob("C05.1g", "delete_bands: the lock's check() is evaluated before the removals, not between them (removing the newest band changes "
+                        "what check() compares, so a later check would abort a half-done delete)")
+    chk = events_of(lib, db, "gc_lock::GarbageCollectionLock::check")
+    rem_ = [e for e in db.events if e.bb in db.live and (g.event_effects(lib, e) & {"T_REMOVE"}) and
+            not re.search(r"GarbageCollectionLock", e.name)]
+    if not chk or not rem_:
+        ck.fail(o, db.name, "anchor-missing", "check events=%d removal events=%d" % (len(chk), len(rem_)))
+    else:
+        after = [c for c in chk if any(db.reaches(r.bb, c.bb) for r in rem_)]
+        if after:
+            ck.fail(o, db.name, "check() repeated after a removal", "GarbageCollectionLock::check can run after a band or block was already removed", after[0].site())
+        else:
+            ck.ok(o, sites=[c.site() for c in chk])
 
     # ---- 5. who may remove ----------------------------------------------------------------------------
     o = ck.ob("C05.5a", "only delete_block, Band::delete and the gc lock call Transport::remove_file / remove_dir_all")
